@@ -1,0 +1,24 @@
+package types
+
+import (
+	sdk "github.com/cosmos/cosmos-sdk/types"
+	"github.com/cosmos/cosmos-sdk/x/authz"
+)
+
+// UnwrapMsgs returns msgs with every authz MsgExec replaced, recursively, by the messages it will
+// execute, in execution order. Ante decorators that price or limit specific message types must
+// look at these, otherwise wrapping a message in MsgExec hides it from them.
+func UnwrapMsgs(msgs []sdk.Msg) []sdk.Msg {
+	out := make([]sdk.Msg, 0, len(msgs))
+	for _, msg := range msgs {
+		if exec, ok := msg.(*authz.MsgExec); ok {
+			inner, err := exec.GetMessages()
+			if err == nil {
+				out = append(out, UnwrapMsgs(inner)...)
+				continue
+			}
+		}
+		out = append(out, msg)
+	}
+	return out
+}
